@@ -503,10 +503,10 @@ def _job_large(env, job, only):
     try:
         d = diff_notebooks(b, l)
         dec = decide_notebook_merge(copy.deepcopy(b), l, r, mergespace.args_for('mergetool'))
+        if nbspace.canon(patch_notebook(b, d)) != nbspace.canon(l):
+            return acc.result()             # not a valid diff: C01
     except Exception:
         return acc.result()                 # C01 / C03
-    if nbspace.canon(patch_notebook(b, d)) != nbspace.canon(l):
-        return acc.result()                 # C01
     pd, pdec = nbspace.to_plain(d), nbspace.to_plain(dec)
     key = 'large-%s-%d' % (variant, LARGE_LINES)
     for what, payload, plain in (('diff', (b, d), pd), ('decisions', (b, dec), pdec)):
@@ -737,8 +737,8 @@ def _jobs(tier, seed):
         for variant in (['source', 'stream'][k % 2:k % 2 + 1] if q else ['source', 'stream']):
             jobs.append(('large', variant, [[], uc, cw, r, 'ctor' if k % 2 else 'args']))
     base = seed * 7919
-    jobs += [('pairs', base + s, 24 if q else 40, tier) for s in range(40 if q else 48)]
-    jobs += [('triples', base + 500 + s, 10 if q else 14, tier) for s in range(40 if q else 48)]
+    jobs += [('pairs', base + s, 24 if q else 40, tier) for s in range(32 if q else 48)]
+    jobs += [('triples', base + 500 + s, 10 if q else 14, tier) for s in range(32 if q else 48)]
     jobs += [('cli', base + 900 + s, 6 if q else 20, tier) for s in range(8 if q else 16)]
     return jobs
 
@@ -766,8 +766,12 @@ def run_bounded(res):
                 continue
             seen.add(root)
             res.violation('%s [%s]' % (detail, kind), dict(where, replay_kind='call', module='checks.c16_bounded', function='replay_case', args=[where]))
-    if not per_kind.get('large') or not per_kind.get('pairs') or not per_kind.get('triples') or not per_kind.get('cli'):
-        raise common.CheckerDefect('C16: a whole class of cases was not exercised: %r' % per_kind)
+    if not res.evaluations:
+        raise common.CheckerDefect('C16: no case was exercised at all')
+    for k in ('large', 'pairs', 'triples', 'cli'):
+        if not per_kind.get(k):
+            # e.g. diff_notebooks / decide_notebook_merge fail for every input of the class: C01 / C03 report that
+            res.notes.append('no case of class %r could be exercised (its inputs could not be diffed / merged)' % k)
     q = res.tier == 'quick'
     res.coverage['cases_by_class'] = per_kind
     res.coverage['rule'] = (
